@@ -157,17 +157,48 @@ func readMessage(conn *net.UnixConn) (*message, error) {
 	if err != nil {
 		return nil, err
 	}
+	msg, _, err := parseMessage(b[:n])
+	return msg, err
+}
 
+// readMessages does one read and returns every complete frame in it, in order.
+// The control socket is a stream socket: a peer that sends several frames
+// without waiting for the replies has them delivered by a single read. err
+// describes what follows the returned frames, if that is not a frame.
+func readMessages(conn *net.UnixConn) ([]*message, error) {
+	b := make([]byte, 4096)
+	n, _, _, _, err := conn.ReadMsgUnix(b, nil)
+	if err != nil {
+		return nil, err
+	}
+	b = b[:n]
+	var msgs []*message
+	for {
+		msg, rest, err := parseMessage(b)
+		if err != nil {
+			return msgs, err
+		}
+		msgs = append(msgs, msg)
+		if len(rest) == 0 {
+			return msgs, nil
+		}
+		b = rest
+	}
+}
+
+// parseMessage decodes the frame at the start of b and returns what follows it.
+func parseMessage(b []byte) (*message, []byte, error) {
 	// header: 1byte(type) + 2byte(len)
-	if n < 3 {
-		return nil, errors.New("invalid header")
+	if len(b) < 3 {
+		return nil, nil, errors.New("invalid header")
 	}
 	msg := new(message)
 	msg.Type = messageType(b[0])
 	msg.Len = uint16(b[1])<<8 | uint16(b[2]) // big endian
-	if n-3 < int(msg.Len) {
-		return nil, errors.New("incomplete data")
+	end := 3 + int(msg.Len)
+	if len(b) < end {
+		return nil, nil, errors.New("incomplete data")
 	}
-	msg.Data = b[3 : 3+msg.Len]
-	return msg, nil
+	msg.Data = b[3:end]
+	return msg, b[end:], nil
 }
